@@ -198,7 +198,7 @@ fn gen_ops(r: &mut Rng, fam: Family, lo: usize, hi: usize, so_far: &[Op]) -> Vec
 }
 
 pub fn gen_scenario(r: &mut Rng, small: bool) -> Scenario {
-    let fam = if r.pct(if small { 60 } else { 35 }) { Family::Select } else { *r.pick(ALL_FAMILIES) };
+    let fam = if r.pct(if small { 80 } else { 35 }) { Family::Select } else { *r.pick(ALL_FAMILIES) };
     let depth = if small { 1 } else { 2 };
     let mut base = gen_inline_log(r, fam, depth, true);
     if small && fam == Family::Select {
@@ -225,7 +225,7 @@ pub fn gen_scenario(r: &mut Rng, small: bool) -> Scenario {
             ValSpec::Decimal(Some((31415, 4))),
             ValSpec::Array(Some(vec![1, 2])),
         ] {
-            if r.pct(60) {
+            if r.pct(90) {
                 base.ops.push(Op::Cond(CondOp::AndWhere(ExprSpec::Bin(
                     Box::new(ExprSpec::Col(ColRefSpec::Col(a("v")))),
                     10,
@@ -237,10 +237,10 @@ pub fn gen_scenario(r: &mut Rng, small: bool) -> Scenario {
     let hi = if small { 2 } else { 5 };
     // the small (Miri) mix favours scenarios in which several threads render shared structure
     let kind = if small {
-        match r.below(10) {
-            0 => 0,
-            1..=4 => 1,
-            5..=8 => 2,
+        match r.below(20) {
+            0 | 1 => 0,
+            2..=10 => 1,
+            11..=17 => 2,
             _ => 3,
         }
     } else {
@@ -274,7 +274,7 @@ pub fn gen_scenario(r: &mut Rng, small: bool) -> Scenario {
                                 // concurrent readers on different backends, each starting with
                                 // the inline (to_string) path so that first uses coincide
                                 o.backend = BACKENDS[ri % 3];
-                                if k == 0 && r.pct(70) {
+                                if k == 0 {
                                     o.entry = Entry::ToString;
                                 }
                             }
@@ -295,7 +295,13 @@ pub fn gen_scenario(r: &mut Rng, small: bool) -> Scenario {
                     compose: if fam == Family::Select { r.below(3) as u8 } else { 0 },
                     panics: r.pct(15),
                     take_first: fam.has_take() && r.pct(30),
-                    obs: gen_obs(r),
+                    obs: {
+                        let mut o = gen_obs(r);
+                        if small && r.pct(60) {
+                            o.entry = Entry::ToString;
+                        }
+                        o
+                    },
                 })
                 .collect();
             Scenario::S3 {
@@ -368,6 +374,23 @@ fn expect_str(log: &Log, extra: &[Op], o: &ObsSpec) -> String {
 }
 
 type Out = Vec<(String, String)>; // (label, observation)
+
+/// start gate: the `n` parties begin their concurrent phase together (no-op without threads)
+fn gate<R: Rt>(g: &std::sync::atomic::AtomicUsize, n: usize) {
+    use std::sync::atomic::Ordering;
+    if R::yield_mode() == YieldMode::None {
+        return;
+    }
+    g.fetch_add(1, Ordering::SeqCst);
+    let mut spins = 0u32;
+    while g.load(Ordering::SeqCst) < n {
+        R::idle();
+        spins += 1;
+        if spins > 1_000_000 {
+            panic!("HARNESS: start gate starved");
+        }
+    }
+}
 
 fn actor<R: Rt, T: Send + 'static>(f: impl FnOnce() -> T + Send + 'static) -> Joiner<Result<T, String>> {
     R::spawn(Box::new(move || {
@@ -524,9 +547,13 @@ pub fn run_scenario<R: Rt>(sc: &Scenario) -> Vec<Finding> {
                 live_apply(&mut c, &ops);
                 vec![("clone".to_string(), obs_str(&c, &cobs))]
             }));
+            let g = Arc::new(std::sync::atomic::AtomicUsize::new(0));
+            let n_readers = readers.len();
             for (ri, (obs, mut rx)) in readers.iter().cloned().zip(rxs.into_iter()).enumerate() {
+                let g = g.clone();
                 joins.push(actor::<R, Out>(move || {
                     let a = rx().expect("HARNESS: reader recv");
+                    gate::<R>(&g, n_readers);
                     let out = obs
                         .iter()
                         .enumerate()
@@ -568,9 +595,13 @@ pub fn run_scenario<R: Rt>(sc: &Scenario) -> Vec<Finding> {
                 drop(s);
                 vec![("owner".to_string(), r)]
             }));
+            let g = Arc::new(std::sync::atomic::AtomicUsize::new(0));
+            let n_branches = branches.len();
             for (bi, (b, mut rx)) in branches.iter().cloned().zip(rxs.into_iter()).enumerate() {
+                let g = g.clone();
                 joins.push(actor::<R, Out>(move || {
                     let mut s = rx().expect("HARNESS: branch recv");
+                    gate::<R>(&g, n_branches);
                     if b.panics {
                         let r: Result<(), String> = guarded(move || {
                             live_apply(&mut s, &b.ops);
